@@ -148,7 +148,7 @@ fn cmd_replay(args: &[String]) {
     let case = Case::from_json(j.at("case"));
     if class == "HANG" || class == "CRASH" {
         // executed in a child so that the verdict is a timeout, not a stuck terminal
-        let v = supervisor::eval_in_child(&case, 10);
+        let v = supervisor::eval_in_child(&case, supervisor::watchdog_secs());
         match v {
             Some(v) if v.class == class => {
                 println!("replay: {} reproduced: {}", class, v.msg);
